@@ -229,10 +229,24 @@ fn lg_aux_arr_ints(lg_config_k: u8) -> (r: u8)
   ensures 4 <= lg_config_k <= 21 ==> 2 <= r <= lg_config_k
 { unimplemented!() }
 
+// what a client (Array4) may rely on: the table invariant plus the range of the stored pairs
+spec fn arange(v: IMap<u32, u8>, lgk: u8) -> bool {
+    forall|s: u32| v.dom().contains(s) ==> s < pow2(lgk as nat) && 1 <= #[trigger] v[s] <= 63
+}
+proof fn lemma_awf(a: AuxMap)
+  requires a.wf2()
+  ensures a.awf()
+{
+    let es = a.entries@;
+    assert forall|s: u32| a.view().dom().contains(s) implies s < pow2(a.lg_config_k as nat) && 1 <= #[trigger] a.view()[s] <= 63 by {
+        let i = choose|i: int| 0 <= i < es.len() && es[i] != 0 && aslot(es[i]) == s;
+        lemma_aget(es, a.lg_size, a.lg_config_k, s, i);
+    }
+}
 proof fn lemma_new_aux(a: AuxMap)
   requires 4 <= a.lg_config_k <= 21, 2 <= a.lg_size <= a.lg_config_k, a.count == 0, a.entries@.len() == pow2(a.lg_size as nat),
     forall|i: int| 0 <= i < a.entries@.len() ==> a.entries@[i] == 0u32
-  ensures a.wf2(), a.view().dom() =~= ISet::empty()
+  ensures a.wf2(), a.awf(), a.view().dom() =~= ISet::empty()
 {
     lemma_aempty_ok(a.entries@, a.lg_size, a.lg_config_k);
     lemma_pow2_pos(a.lg_size as nat);
@@ -362,12 +376,12 @@ Some ( _ ) => continue , None => return None , }
 
 impl AuxMap {
     fn new ( lg_config_k : u8 ) -> ( r : Self ) requires 4 <= lg_config_k <= 21 ensures
-/*@C02.aux_wf*/ r . wf2 ( ) , r . lg_config_k == lg_config_k ,
+/*@C02.aux_wf*/ r . wf2 ( ) , r . awf ( ) , r . lg_config_k == lg_config_k ,
 /*@C02.aux_new*/ r . view ( ) . dom ( ) =~= ISet :: empty ( ) {
 let lg_size = lg_aux_arr_ints ( lg_config_k ) ;
 proof {
 lemma_shl_usize32 ( lg_size ) ;
-assert forall | a : AuxMap | a . lg_config_k == lg_config_k && a . lg_size == lg_size && a . count == 0 && a . entries @ . len ( ) == ( 1usize << lg_size ) && ( forall | x : int | 0 <= x < a . entries @ . len ( ) ==> a . entries @ [ x ] == 0u32 ) implies # [ trigger ] a . wf2 ( ) && a . view ( ) . dom ( ) =~= ISet :: empty ( ) by {
+assert forall | a : AuxMap | a . lg_config_k == lg_config_k && a . lg_size == lg_size && a . count == 0 && a . entries @ . len ( ) == ( 1usize << lg_size ) && ( forall | x : int | 0 <= x < a . entries @ . len ( ) ==> a . entries @ [ x ] == 0u32 ) implies # [ trigger ] a . wf2 ( ) && a . awf ( ) && a . view ( ) . dom ( ) =~= ISet :: empty ( ) by {
 lemma_new_aux ( a ) ;
 }
 }
@@ -514,6 +528,8 @@ unreachable! ( ) ;
 
 
 
+    spec fn lgk(&self) -> u8 { self.lg_config_k }
+    spec fn awf(&self) -> bool { self.wf2() && arange(self.view(), self.lg_config_k) }
     // the abstract view: slot -> exception value
     spec fn view(&self) -> IMap<u32, u8> { amap(self.entries@) }
     // like wf but the table may be momentarily full (between the store and check_grow)
@@ -532,7 +548,7 @@ unreachable! ( ) ;
 
     /// Insert a new slot-value pair
     fn insert ( & mut self , slot : u32 , value : u8 ) requires old ( self ) . wf2 ( ) , slot < pow2 ( old ( self ) . lg_config_k as nat ) , ! old ( self ) . view ( ) . dom ( ) . contains ( slot ) , 1 <= value <= 63 ensures
-/*@C02.aux_wf*/ final ( self ) . wf2 ( ) ,
+/*@C02.aux_wf*/ final ( self ) . wf2 ( ) , final ( self ) . awf ( ) ,
 /*@C02.aux_insert*/ final ( self ) . view ( ) == old ( self ) . view ( ) . insert ( slot , value ) , final ( self ) . lg_config_k == old ( self ) . lg_config_k , final ( self ) . lg_size <= old ( self ) . lg_size + 1 {
 let index = self . find ( slot ) ;
 match index {
@@ -562,6 +578,7 @@ lemma_view_insert ( es0 , es1 , self . lg_size , self . lg_config_k , slot , val
 assert ( self . view ( ) =~= old ( self ) . view ( ) . insert ( slot , value ) ) ;
 }
 self . check_grow ( ) ;
+proof { lemma_awf ( * self ) ; }
 }
 }
 }
@@ -756,7 +773,7 @@ FindResult :: Found ( idx ) => Some ( get_value ( self . entries [ idx ] ) ) , F
 
 
     /// Replace value for existing slot
-    fn replace ( & mut self , slot : u32 , value : u8 ) requires old ( self ) . wf2 ( ) , slot < pow2 ( old ( self ) . lg_config_k as nat ) , old ( self ) . view ( ) . dom ( ) . contains ( slot ) , 1 <= value <= 63 ensures /*@C02.aux_wf*/ final ( self ) . wf2 ( ) , /*@C02.aux_replace*/ final ( self ) . view ( ) == old ( self ) . view ( ) . insert ( slot , value ) , final ( self ) . lg_config_k == old ( self ) . lg_config_k {
+    fn replace ( & mut self , slot : u32 , value : u8 ) requires old ( self ) . wf2 ( ) , slot < pow2 ( old ( self ) . lg_config_k as nat ) , old ( self ) . view ( ) . dom ( ) . contains ( slot ) , 1 <= value <= 63 ensures /*@C02.aux_wf*/ final ( self ) . wf2 ( ) , final ( self ) . awf ( ) , /*@C02.aux_replace*/ final ( self ) . view ( ) == old ( self ) . view ( ) . insert ( slot , value ) , final ( self ) . lg_config_k == old ( self ) . lg_config_k {
 match self . find ( slot ) {
 FindResult :: Found ( idx ) => {
 let ghost es0 = self . entries @ ;
@@ -773,6 +790,7 @@ lemma_areplace_ok ( es0 , self . lg_size , self . lg_config_k , slot , value , i
 assert ( aocc ( es1 ) =~= aocc ( es0 ) ) ;
 lemma_view_replace ( es0 , es1 , self . lg_size , self . lg_config_k , slot , value , idx as int ) ;
 assert ( self . view ( ) =~= old ( self ) . view ( ) . insert ( slot , value ) ) ;
+lemma_awf ( * self ) ;
 }
 }
 FindResult :: Empty ( _ ) => {
